@@ -17,7 +17,6 @@ use mc_ledger::*;
 use radix_engine::system::system_substates::FieldSubstate;
 use radix_engine_interface::object_modules::metadata::*;
 use radix_engine_interface::object_modules::role_assignment::*;
-use radix_engine_interface::object_modules::royalty::*;
 use radix_substate_store_interface::interface::SubstateDatabaseExtensions;
 use serde_json::json;
 use std::collections::BTreeMap;
@@ -249,7 +248,7 @@ pub fn build_world() -> World51 {
     g_roy.push(act("A:royalty-set(guarded_rs,free)".into(), 0, mb().set_component_royalty(c1, "guarded_rs", RoyaltyAmount::Free).build(), vec![i_roy_pre], vec![], vec![]));
     g_roy.push(act("A:royalty-lock(guarded_rs)".into(), 0, mb().lock_component_royalty(c1, "guarded_rs").build(), vec![], vec![], vec![]));
     // a paid call of a royalty-bearing method (royalty is charged; the setting must not move)
-    g_roy.push(act("nobody:call-guarded_rs".into(), 2, mb().call_method(c1, "guarded_rs", manifest_args!(script_bytes(&[]))).build(), vec![], vec![], vec![]));
+    g_roy.push(act("A:call-guarded_rs".into(), 0, mb().call_method(c1, "guarded_rs", manifest_args!(script_bytes(&[]))).build(), vec![], vec![], vec![]));
     g_roy.push(next_round.clone());
 
     // fields and KV collection entries of C1, through the object's own code
